@@ -6,11 +6,14 @@
    Proofs: ms/RenameFacts.v (safety of [rename_abs] under every fault plan) and ms/RenameData.v (the
    byte-level client, run by the stream semantics against the reference server with any choice of reply
    encodings and no injected fault, REFINES [rename_abs]: same result, same final store and active script,
-   both buffers empty -- C14_emulation_refines).  With injected faults (NO / BYE / silence at each of the five
-   steps) the byte-level client is tied to rename_abs and to managesieve.py by the exhaustive correspondence
-   check of C14 (initial states x fault placement x bodies). *)
+   both buffers empty -- C14_emulation_refines) and, in ms/FaultFacts.v + ms/RenameFaults.v, UNDER EVERY LIST OF
+   PLANNED FAULTS of the reference server (NO / BYE / silence for any of the commands): the byte-level client
+   returns what rename_abs computes for that plan and leaves exactly its store and active script
+   (C14_emulation_refines_under_faults); composed with the safety theorems this gives the statement of C14 about
+   the bytes (C14_bytes_safe).  The model client is tied to managesieve.py by the exhaustive correspondence check
+   of C14 (initial states x fault placement x bodies). *)
 From Coq Require Import String List NArith Bool Arith.
-From SV Require Import Bytes Client Transport Server RenameAbs RenameFacts SessionFacts SessionData RenameData.
+From SV Require Import Bytes Client Transport Server RenameAbs RenameFacts SessionFacts SessionData FaultFacts RenameData RenameFaults.
 Import ListNotations.
 Local Open Scope nat_scope.
 
@@ -89,3 +92,84 @@ Theorem C14_emulation_refines_in_sessions :
       c_auth (Session.outcome_state out) = true /\ c_caps (Session.outcome_state out) = c_caps st.
 Proof. exact RenameData.rename_emulated_refines_st. Qed.
 Print Assumptions C14_emulation_refines_in_sessions.
+
+(* the reference server with a planned fault for the command it receives next: a NO reply reaches the continuation of
+   __send_command as NO, BYE and silence raise Error; the server's data are untouched *)
+Theorem C14_send_command_faulted :
+  forall f verb args nbl ql st k (w : sworld sstate),
+    verb_ok verb -> s_stream sstate w = [] -> s_in (s_peer sstate w) = [] ->
+    fault_now (s_peer sstate w) <> FNone ->
+    exists w' c,
+      fault_frame (s_peer sstate w) (s_peer sstate w') /\
+      interp_s sstate srv_react srv_connect srv_tls (send_command (S f) verb args [] nbl ql st k) w =
+      match fault_now (s_peer sstate w) with
+      | FNo =>
+          let r := mk_reply StNO None (bs "injected failure") c in
+          interp_s sstate srv_react srv_connect srv_tls
+            (k (set_err (StatusFacts.code_of r) (StatusFacts.text_of r) st) (Some (bs "NO")) (StatusFacts.data_of r) []) w'
+      | FBye => (OFail ExBye st, w')
+      | _ => (OFail ExTimeout st, w')
+      end /\
+      (fault_now (s_peer sstate w) = FNo -> s_stream sstate w' = []).
+Proof. exact FaultFacts.send_command_faulted. Qed.
+Print Assumptions C14_send_command_faulted.
+
+(* the byte-level emulation refines the abstract rename under every list of planned faults *)
+Theorem C14_emulation_refines_under_faults :
+  forall Fu old new st (w : sworld sstate) s,
+    c_auth st = true -> has_cap (bs "VERSION") st = false ->
+    s_stream sstate w = [] -> live (s_peer sstate w) -> same_data s (s_peer sstate w) ->
+    names_ok s -> length (s_store s) < Fu -> 3 <= Fu ->
+    let pl := fun n => find_fault (s_count (s_peer sstate w) + n) (s_faults (s_peer sstate w)) in
+    exists out w',
+      interp_s sstate srv_react srv_connect srv_tls (renamescript Fu old new st finish) w = (out, w') /\
+      result_is out (fst (rename_abs pl s old new)) /\
+      same_data (snd (rename_abs pl s old new)) (s_peer sstate w').
+Proof. exact RenameFaults.rename_emulated_refines_faults. Qed.
+Print Assumptions C14_emulation_refines_under_faults.
+
+(* the statement of C14 about the bytes: any fault list, any store, any bodies, any reply encodings *)
+Theorem C14_bytes_safe :
+  forall Fu old new st (w : sworld sstate),
+    c_auth st = true -> has_cap (bs "VERSION") st = false ->
+    s_stream sstate w = [] -> live (s_peer sstate w) -> names_ok (s_peer sstate w) ->
+    length (s_store (s_peer sstate w)) < Fu -> 3 <= Fu ->
+    let before := s_peer sstate w in
+    exists out w',
+      interp_s sstate srv_react srv_connect srv_tls (renamescript Fu old new st finish) w = (out, w') /\
+      let after := s_peer sstate w' in
+      ((exists b st', out = ODone (VBool b) st') \/ (exists e st', out = OFail e st' /\ err_ok e)) /\
+      (forall n c, n <> old -> n <> new ->
+         (assoc_get n (s_store before) = Some c <-> assoc_get n (s_store after) = Some c)) /\
+      (forall c, assoc_get new (s_store before) = Some c ->
+         s_store after = s_store before /\ s_active after = s_active before /\ (forall st', out <> ODone (VBool true) st')) /\
+      (forall c, assoc_get old (s_store before) = Some c ->
+         assoc_get old (s_store after) = Some c \/ assoc_get new (s_store after) = Some (norm c)) /\
+      (forall a, s_active before = Some a -> a <> old -> s_active after = Some a) /\
+      (forall st', out = ODone (VBool true) st' -> NoDup (map fst (s_store before)) -> active_ok before -> new <> [] ->
+         old <> new /\ assoc_get old (s_store after) = None /\
+         (exists c, assoc_get old (s_store before) = Some c /\ assoc_get new (s_store after) = Some (norm c)) /\
+         (s_active after = Some new <-> s_active before = Some old)).
+Proof. exact RenameFaults.rename_bytes_safe. Qed.
+Print Assumptions C14_bytes_safe.
+
+(* non-vacuity: SETACTIVE answered NO, the connection dropped at DELETESCRIPT, GETSCRIPT never answered *)
+Example C14_faults_example :
+  let run fl := interp_s sstate srv_react srv_connect srv_tls
+                  (renamescript 10 (bs "a") (bs "b") (mkC true None [] []) finish) (faulty_world fl) in
+  (match run [(3, FNo)] with
+   | (ODone (VBool false) _, w') =>
+       s_store (s_peer sstate w') = [(bs "a", bs "keep;"); (bs "b", bs "keep;")] /\ s_active (s_peer sstate w') = Some (bs "a")
+   | _ => False
+   end) /\
+  (match run [(4, FBye)] with
+   | (OFail ExBye _, w') =>
+       s_store (s_peer sstate w') = [(bs "a", bs "keep;"); (bs "b", bs "keep;")] /\ s_active (s_peer sstate w') = Some (bs "b")
+   | _ => False
+   end) /\
+  (match run [(1, FSilent)] with
+   | (OFail ExTimeout _, w') => s_store (s_peer sstate w') = [(bs "a", bs "keep;")]
+   | _ => False
+   end) /\
+  live (faulty_server [(3, FNo)]) /\ names_ok (faulty_server [(3, FNo)]).
+Proof. exact RenameFaults.rename_faults_example. Qed.
